@@ -482,16 +482,20 @@ fn check_balance<'ctx>(
             if let Ok(amount) = amount {
                 // amount can be PostingAmount::Zero, or even multi commodities (in rare cases).
                 // so we ignore the error.
+                // the converted amount is informational: when it is not representable
+                // (an extreme implied rate times a large amount), it is left unset.
                 if a1.commodity == amount.commodity {
-                    p.converted_amount = Some(SingleAmount::from_value(
-                        (a2.value / a1.value).abs() * amount.value,
-                        a2.commodity,
-                    ));
+                    p.converted_amount = a2
+                        .value
+                        .checked_div(a1.value)
+                        .and_then(|rate| rate.abs().checked_mul(amount.value))
+                        .map(|value| SingleAmount::from_value(value, a2.commodity));
                 } else if a2.commodity == amount.commodity {
-                    p.converted_amount = Some(SingleAmount::from_value(
-                        (a1.value / a2.value).abs() * amount.value,
-                        a1.commodity,
-                    ));
+                    p.converted_amount = a1
+                        .value
+                        .checked_div(a2.value)
+                        .and_then(|rate| rate.abs().checked_mul(amount.value))
+                        .map(|value| SingleAmount::from_value(value, a1.commodity));
                 }
             }
         }
